@@ -1,5 +1,5 @@
 # replay of a bounded stand-in violation (C13): re-run native/c13_tdm.py
 import sys
-print('TDM N=4 T=3 shift=1: run raised KeyError: 1')
+print('N=[3] bands measured in order [0] timebins=5 shots=1: samples[0,0,3] identifies pulse 1, expected pulse 2 (band 0)')
 print('REPLAY-VIOLATION')
 sys.exit(1)
